@@ -13,6 +13,8 @@ import Reamber.Lemmas.TimingRoundTrip
 import Reamber.Lemmas.TimingRoundTripErr
 import Reamber.Lemmas.TimingBeats
 import Reamber.Lemmas.Argsort
+import Reamber.Lemmas.TimingD22
+import Reamber.Lemmas.TimingClosedForm
 import Reamber.Spec.Timing
 import Reamber.Generated.Consts
 
